@@ -234,12 +234,30 @@ func initFmtExternals() {
 			}
 			return fr.i.newError(fr, msg)
 		},
-		"fmt.Print":    func(fr *frame, a []value) value { fr.i.stdout(fr.i.sprint(fr, a[0].([]value), false)); return tuple{0, iface{}} },
-		"fmt.Println":  func(fr *frame, a []value) value { fr.i.stdout(fr.i.sprint(fr, a[0].([]value), true)); return tuple{0, iface{}} },
-		"fmt.Printf":   func(fr *frame, a []value) value { fr.i.stdout(fr.i.sprintf(fr, goStr(a[0]), a[1].([]value))); return tuple{0, iface{}} },
-		"fmt.Fprint":   func(fr *frame, a []value) value { fr.i.stdout(fr.i.sprint(fr, a[1].([]value), false)); return tuple{0, iface{}} },
-		"fmt.Fprintln": func(fr *frame, a []value) value { fr.i.stdout(fr.i.sprint(fr, a[1].([]value), true)); return tuple{0, iface{}} },
-		"fmt.Fprintf":  func(fr *frame, a []value) value { fr.i.stdout(fr.i.sprintf(fr, goStr(a[1]), a[2].([]value))); return tuple{0, iface{}} },
+		"fmt.Print": func(fr *frame, a []value) value {
+			fr.i.stdout(fr.i.sprint(fr, a[0].([]value), false))
+			return tuple{0, iface{}}
+		},
+		"fmt.Println": func(fr *frame, a []value) value {
+			fr.i.stdout(fr.i.sprint(fr, a[0].([]value), true))
+			return tuple{0, iface{}}
+		},
+		"fmt.Printf": func(fr *frame, a []value) value {
+			fr.i.stdout(fr.i.sprintf(fr, goStr(a[0]), a[1].([]value)))
+			return tuple{0, iface{}}
+		},
+		"fmt.Fprint": func(fr *frame, a []value) value {
+			fr.i.stdout(fr.i.sprint(fr, a[1].([]value), false))
+			return tuple{0, iface{}}
+		},
+		"fmt.Fprintln": func(fr *frame, a []value) value {
+			fr.i.stdout(fr.i.sprint(fr, a[1].([]value), true))
+			return tuple{0, iface{}}
+		},
+		"fmt.Fprintf": func(fr *frame, a []value) value {
+			fr.i.stdout(fr.i.sprintf(fr, goStr(a[1]), a[2].([]value)))
+			return tuple{0, iface{}}
+		},
 
 		"strconv.FormatFloat": func(fr *frame, a []value) value {
 			f, ok := a[0].(float64)
